@@ -155,6 +155,12 @@ def check(run):
     covered, exempt = guard_lists()
     run.cov["correspondence"]["guard_keywords_found_in_source"] = len(recs)
     run.cov["correspondence"]["guard_keywords_covered_by_model"] = len([r for r in recs if (r["file"], r["keyword"]) in covered])
+    by_kind = {}
+    for rec in recs:
+        for u in rec["uses"]:
+            by_kind[u[0]] = by_kind.get(u[0], 0) + 1
+    run.cov["correspondence"]["guard_use_sites_by_kind"] = by_kind
+    run.cov["correspondence"]["guard_keywords_read_with_key_lookup"] = sorted(r["keyword"] for r in recs if "key_lookup" in r["type"])
     for rec in recs:
         key = (rec["file"], rec["keyword"])
         run.count(("guardscan",) + key, key in covered)
@@ -421,6 +427,111 @@ def check(run):
         run.mismatch("table:meta.replicas", "walker b with newHillFrequency 0 next to walker a", rb["cls"], mw[0] if mw else "?")
     elif mw and not mw[0].startswith("accept initsafe=1 stepsafe=1"):
         run.mismatch("table:meta.replicas", mlw, "accept", mw[0])
+
+    # ------------------------------------------------------------------ 3c'. vector-valued keywords (tie of vector_keyword)
+    vjobs, vlines, vcases = [], [], []
+    for label, tmpl, presized, elem in T.VECTORS:
+        for v in T.VECTOR_VALUES + (["-1 1", "1 -1"] if elem == "nonneg" or label.startswith("harmonic") else []):
+            k = len(vcases)
+            vcases.append((label, v))
+            vlines.append("vector n=2 presized=%s elem=%s toks=%s" % ("on" if presized else "off", elem, ",".join(v.split())))
+            sc = T.scenario(tmpl.replace("{V}", v), 3, nsteps=4)
+            for var in variants:
+                if var == "asan" and quick and k % 4 != run.seed % 4:
+                    continue
+                vjobs.append(((k, var), plain if var == "plain" else asan, sc, os.path.join(W, "v", var, str(k)), var, 20 if var == "plain" else 60))
+    rc, vout, verr = V.run_lines(model, vlines)
+    vres = L.run_many(vjobs)
+    for (k, var), rr in sorted(vres.items()):
+        label, v = vcases[k]
+        mo = vout[k] if k < len(vout) else "<none>"
+        sc = [j for j in vjobs if j[0] == (k, var)][0][2]
+        lc = last_config(rr)
+        impl = rr["cls"] if rr["cls"] != "ok" else ("accept" if lc and lc[0] == "ok" else "reject")
+        run.count(("vector", label, v, var), impl != "accept")
+        run.dist("vector:%s" % (impl if impl in ("accept", "reject") else "died"))
+        if rr.get("skipped"):
+            continue
+        if rr["cls"] != "ok":
+            report_death("vector", label, v or "empty", var, rr, sc, vclass="list:" + ("-".join(value_class(t) for t in v.split()) or "empty"))
+            continue
+        if impl == "reject":
+            check_survivors("vector", label, v, var, rr, sc)
+        if impl != mo.split()[0]:
+            run.mismatch("vector:" + label, "%s = %s (%s)" % (label, v, var), impl, mo)
+    run.sample({"vector_case": "%s = %s" % vcases[1], "model": vout[1] if len(vout) > 1 else None})
+
+    # ------------------------------------------------------------------ 3d. run-time paths: script commands after two steps
+    rt_conf = (T.cv("x", 1, T.GRIDCV) + "harmonic {\n  name r\n  colvars x\n  centers 1.0\n  forceConstant 2.0\n}\n"
+               "histogram {\n  name h\n  colvars x\n  outputFreq 2\n}\n")
+    rt_lines = T.scenario(rt_conf, 3, nsteps=6).split("\n")
+
+    def rt_scenario(cmd):
+        out, n = [], 0
+        for l in rt_lines:
+            out.append(l)
+            if l == "step":
+                n += 1
+                if n == 2 and cmd:
+                    out.append(cmd)
+        return "\n".join(out) + "\n"
+    rt_values = values + ["-2147483648", "2147483648", "1e-300", "abc"]
+    rt_cmds = []
+    for kw in ("componentExp", "componentCoeff", "period", "wrapAround"):
+        for v in rt_values:
+            rt_cmds.append(("modifycvcs." + kw, v, 'scriptv cv|colvar|x|modifycvcs|"%s %s"' % (kw, v)))
+    for v in ('"name zz0"', '"name x2"', '"componentExp 2" "componentExp 3"', '"abc', '', '""', 'componentExp 2'):
+        rt_cmds.append(("modifycvcs.list", v, "scriptv cv|colvar|x|modifycvcs|" + v))
+    for v in ("1", "0", "1 1", "2", "-1", "nan", ""):
+        rt_cmds.append(("cvcflags", v, "scriptv cv|colvar|x|cvcflags|" + v))
+    for v in rt_values + ["(1,2,3)"]:
+        rt_cmds.append(("addforce", v, "scriptv cv|colvar|x|addforce|" + v))
+        rt_cmds.append(("cv.frame", v, "scriptv cv|frame|" + v))
+        rt_cmds.append(("cv.timestep", v, "scriptv cv|timestep|" + v))
+        rt_cmds.append(("cv.targettemperature", v, "scriptv cv|targettemperature|" + v))
+        rt_cmds.append(("cv.addenergy", v, "scriptv cv|addenergy|" + v))
+    for obj, name in (("colvar", "x"), ("bias", "r"), ("bias", "h")):
+        for feat in ("awake", "active", "nosuch", "step_zero_data", "output_value", "apply_force", "total_force"):
+            for v in ("0", "1", "2", "-1", "nan"):
+                rt_cmds.append(("%s.set.%s" % (obj, feat), v, "scriptv cv|%s|%s|set|%s|%s" % (obj, name, feat, v)))
+    if quick:
+        r.shuffle(rt_cmds)
+        keep = [c for c in rt_cmds if c[0].startswith("modifycvcs.componentExp")] + rt_cmds[:70]
+        rt_cmds = list(dict.fromkeys(keep))
+    rt_ref = L.run_scenario(plain, rt_scenario(None), os.path.join(W, "rt", "ref"), "plain", 40)
+    rt_ref_x = [l for l in rt_ref["out"].split("\n") if l.startswith("CV x ")]
+    jobs = []
+    for k, (label, v, cmd) in enumerate(rt_cmds):
+        for var in variants:
+            if var == "asan" and quick and k % 3 != run.seed % 3 and not label.startswith("modifycvcs.componentExp"):
+                continue
+            jobs.append(((k, var), plain if var == "plain" else asan, rt_scenario(cmd), os.path.join(W, "rt", var, str(k)), var, 20 if var == "plain" else 60))
+    rres = L.run_many(jobs)
+    for (k, var), rr in sorted(rres.items()):
+        label, v, cmd = rt_cmds[k]
+        sres_ = re.findall(r"SCRIPT err=(\w+)", rr["out"])
+        outcome = rr["cls"] if rr["cls"] != "ok" else ("script-" + (sres_[0] if sres_ else "none"))
+        run.count(("runtime", label, value_class(v) if v else "empty", var), outcome != "script-ok")
+        run.dist("runtime:" + (outcome if outcome.startswith("script-") else "died"))
+        if rr.get("skipped"):
+            continue
+        if rr["cls"] != "ok":
+            report_death("runtime", label, v or "empty", var, rr, rt_scenario(cmd))
+            continue
+        tr = base_trace(rr["out"])
+        if var == "plain" and tr != ref_trace[:len(tr)]:
+            run.violation("rollback:behaviour:runtime." + label, "after the script command `%s` the objects it does not name differ from a run without it" % cmd,
+                          {"kind": "scenario", "variant": var, "scenario": rt_scenario(cmd)})
+        if var == "plain" and label.startswith("modifycvcs") and sres_ and sres_[0] == "error":
+            xs = [l for l in rr["out"].split("\n") if l.startswith("CV x ")]
+            if xs != rt_ref_x:
+                kx = next((i for i, (a_, b_) in enumerate(zip(xs, rt_ref_x)) if a_ != b_), 0)
+                run.violation("rollback:behaviour:runtime." + label,
+                              "the script command `%s` returned an error but variable x changed: %s instead of %s" % (
+                                  cmd, xs[kx] if kx < len(xs) else "?", rt_ref_x[kx] if kx < len(rt_ref_x) else "?"),
+                              {"kind": "scenario", "variant": var, "scenario": rt_scenario(cmd)})
+    if rt_cmds:
+        run.sample({"runtime_case": rt_cmds[0][2], "outcome": rres[(0, "plain")]["cls"]})
 
     # ------------------------------------------------------------------ 4. search: harvested keywords
     budget = 35 if quick else 600
